@@ -66,7 +66,7 @@ Fixpoint insert_desc_d (x : stride * (Z * Z * Z)) (l : list (stride * (Z * Z * Z
   end.
 Definition sort_desc_d (l : list (stride * (Z * Z * Z))) := fold_right insert_desc_d [] l.
 
-Definition lower_dyn (src dst : layout) (el : Z) (rshape : list Z) (smd dmd : rtmd) : option code :=
+Definition lower_dyn_body (src dst : layout) (el : Z) (rshape : list Z) (smd dmd : rtmd) : option code :=
   match off_val src smd, off_val dst dmd, bound_vals (tstrides src) rshape with
   | Some so, Some do_, Some bv =>
       let fb := concat bv in
@@ -90,10 +90,17 @@ Definition lower_dyn (src dst : layout) (el : Z) (rshape : list Z) (smd dmd : rt
   | _, _, _ => None
   end.
 
+(* rank 0: assert in get_total_size_op, as in C05Copy.lower *)
+Definition lower_dyn (src dst : layout) (el : Z) (rshape : list Z) (smd dmd : rtmd) : option code :=
+  match rshape with
+  | [] => None
+  | _ :: _ => lower_dyn_body src dst el rshape smd dmd
+  end.
+
 Definition lower_memref_dyn (shape : list (option Z)) (msrc mdst : mlayout) (el : Z) (rshape : list Z)
   (smd dmd : rtmd) : option code :=
   match msrc, mdst with
-  | LNone, LNone => Some (lower_simple el rshape)
+  | LNone, LNone => match rshape with [] => None | _ :: _ => Some (lower_simple el rshape) end
   | _, _ => lower_dyn (to_tsl shape msrc mdst) (to_tsl shape mdst msrc) el rshape smd dmd
   end.
 
